@@ -45,6 +45,10 @@ type nameSpace struct {
 	// javascript: URIs are disallowed in templates in this namespace.
 	cspCompatible bool
 	esc           escaper
+	// pristine[name] is a copy of the named template's parse tree made before
+	// the escaper rewrote it. Templates derived for other start contexts are
+	// copied from it rather than from the rewritten tree.
+	pristine map[string]*parse.Tree
 }
 
 // Templates returns a slice of the templates associated with t, including t
